@@ -141,16 +141,18 @@ def import_path(path: Path, root: Path) -> ModuleType:
         pass
     else:
         # If the given module name is already in sys.modules, do not import it again.
-        with contextlib.suppress(KeyError):
-            return sys.modules[module_name]
+        mod = _get_imported_module(module_name, path)
+        if mod is not None:
+            return mod
 
         mod = _import_module_using_spec(module_name, path, pkg_root)
         if mod is not None:
             return mod
 
     module_name = _module_name_from_path(path, root)
-    with contextlib.suppress(KeyError):
-        return sys.modules[module_name]
+    mod = _get_imported_module(module_name, path)
+    if mod is not None:
+        return mod
 
     spec = importlib.util.spec_from_file_location(module_name, str(path))
 
@@ -162,6 +164,23 @@ def import_path(path: Path, root: Path) -> ModuleType:
     sys.modules[module_name] = mod
     spec.loader.exec_module(mod)  # type: ignore[union-attr]
     _insert_missing_modules(sys.modules, module_name)
+    return mod
+
+
+def _get_imported_module(module_name: str, path: Path) -> ModuleType | None:
+    """Return the module with the given name if it was imported from the given path.
+
+    Different paths can lead to the same module name, for example, ``a.b/task_x.py`` and
+    ``a_b/task_x.py`` or the same package below two roots. The module imported for one
+    path must not be reused for the other.
+
+    """
+    mod = sys.modules.get(module_name)
+    if mod is None:
+        return None
+    file = getattr(mod, "__file__", None)
+    if file is not None and Path(file) != path:
+        return None
     return mod
 
 
